@@ -87,7 +87,7 @@ class Recorder:
         elif kind == "Mul":
             arg["f"] = self.factor(op)
         elif kind in ("New", "NewShared", "NewDefault"):
-            pass  # constructors are library code: built inside the try block
+            B.check_exact(op["d"], self.g)  # the constructors themselves are library code: called inside the try
         # ---- execute: only calls into the library
         try:
             if kind == "New":
